@@ -10,9 +10,12 @@ CONSTANTS
   Targets = {1, 2}
   DnsPort = {2, 8}
   Allowed = {1, 2}
+  Unsendable = {}
+  DisarmFirst = TRUE
   Fam <- GenFam
   DgAlpha <- GenDgVirt
   RpAlpha <- GenRpVirt
+  MidAlpha <- NoMid
   Sync = TRUE
   T = 2
   DNST = 4
